@@ -230,7 +230,7 @@ class Models(object):
         if name in ('abs', 'absolute'):
             return s_abs(x)
         if isinstance(x, Unk):
-            return Unk('%s(%s)' % (name, x.why))
+            return Unk(('fn', name, x.expr))
         if isinstance(x, bool):
             x = int(x)
         if name == 'logical_not':
@@ -259,7 +259,7 @@ class Models(object):
             return x.conj() if isinstance(x, Poly) else x
         if name in ('isnan', 'isinf'):
             if isinstance(x, Poly) and (x.atoms() & {'nan', 'inf'}):
-                return Unk('%s(%r)' % (name, x))
+                return Unk(('fn', name, x))
             return False
         if name == 'isfinite':
             return True
@@ -271,8 +271,8 @@ class Models(object):
                     return False
                 if x.imag().is_const() and not x.imag().is_zero():
                     return True
-                return Unk('iscomplex(%r)' % (x,))
-            return Unk('iscomplex(%r)' % (x,))
+                return Unk(('fn', 'iscomplex', x))
+            return Unk(('fn', 'iscomplex', x))
         if name == 'isreal':
             r = self.scalar_fn('iscomplex', x)
             return ndarr.s_not(r)
@@ -616,7 +616,7 @@ class Models(object):
             if isinstance(c, Unk):
                 if _same(x, y):
                     return x
-                return Choice(c, x, y)
+                return ndarr.mk_choice(c, x, y)
             raise AnalysisError('np.where condition %r' % (c,))
         return ewn(pick, cond, a, b)
 
@@ -701,28 +701,28 @@ class Models(object):
 
     def np_any(self, a, axis=None, **kw):
         def f(items):
-            pend = None
+            pend = []
             for v in items:
                 if isinstance(v, Unk):
-                    pend = v if pend is None else Unk('any')
+                    pend.append(v.expr)
                 elif isinstance(v, Choice):
-                    pend = Unk('any(choice)')
+                    pend.append(('choice', v))
                 elif v is True or (not isinstance(v, bool) and _truthy(v)):
                     return True
-            return Unk('any(%s)' % pend.why) if pend is not None else False
+            return Unk(('any', pend)) if pend else False
         return self._reduce(a, axis, f, 'any', empty=False)
 
     def np_all(self, a, axis=None, **kw):
         def f(items):
-            pend = None
+            pend = []
             for v in items:
                 if isinstance(v, Unk):
-                    pend = v if pend is None else Unk('all')
+                    pend.append(v.expr)
                 elif isinstance(v, Choice):
-                    pend = Unk('all(choice)')
+                    pend.append(('choice', v))
                 elif v is False or (not isinstance(v, bool) and not _truthy(v)):
                     return False
-            return Unk('all(%s)' % pend.why) if pend is not None else True
+            return Unk(('all', pend)) if pend else True
         return self._reduce(a, axis, f, 'all', empty=True)
 
     def _extreme(self, which, name):
